@@ -153,6 +153,51 @@ def edit_in_place(r, d, tx):
     return d
 
 
+_CONF = None
+
+
+def confusables():
+    """ASCII character -> non-ASCII characters that case mapping or compatibility normalisation turn into it
+    (KELVIN SIGN -> k, LONG S -> S, DOTLESS I -> I, full-width forms, ...), plus look-alikes and invisibles"""
+    global _CONF
+    if _CONF is None:
+        import unicodedata
+        m = {}
+        for cp in list(range(128, 0x3000)) + list(range(0xff00, 0xff60)) + list(range(0x1d400, 0x1d800)):
+            ch = chr(cp)
+            for t in {ch.lower(), ch.upper(), unicodedata.normalize("NFKC", ch), ch.casefold()}:
+                if len(t) == 1 and t.isascii() and t.isalnum():
+                    m.setdefault(t, [])
+                    if ch not in m[t] and len(m[t]) < 6:
+                        m[t].append(ch)
+        for a, b in (("a", "\u0430"), ("e", "\u0435"), ("o", "\u043e"), ("p", "\u0440"), ("c", "\u0441"), ("x", "\u0445"), ("1", "\u0661")):
+            m.setdefault(a, []).append(b)
+        _CONF = m
+    return _CONF
+
+
+def confuse(s, r, n=6):
+    """up to n variants of s with one character replaced by a confusable (the case-mapped target is looked up in
+    both cases), plus s with an invisible or wide character inserted"""
+    m = confusables()
+    out = []
+    idx = [i for i, c in enumerate(s) if c in m or c.lower() in m or c.upper() in m]
+    r.shuffle(idx)
+    for i in idx[:n]:
+        c = s[i]
+        cands = m.get(c, []) + m.get(c.lower(), []) + m.get(c.upper(), [])
+        out.append(s[:i] + r.choice(cands) + s[i + 1:])
+    for w in ("\u200b", "\u4e2d", "\U0001f600", "\uff11", "\u0100"):
+        i = r.randrange(len(s) + 1)
+        out.append(s[:i] + w + s[i:])
+    # the one substitution per target that case mapping alone undoes
+    for t, ch in (("K", "\u212a"), ("k", "\u212a"), ("S", "\u017f"), ("s", "\u017f"), ("I", "\u0131"), ("i", "\u0131")):
+        if t in s:
+            out.append(s.replace(t, ch, 1))
+            out.append(s.replace(t, ch))
+    return out
+
+
 def build_header(d):
     from bitcoin.core import CBlockHeader
     return CBlockHeader(d["ver"], d["prev"], d["merkle"], d["time"], d["bits"], d["nonce"])
